@@ -56,6 +56,24 @@ def positional_family():
     mkx("fail_then_extern_skipped", [("inc", [A(Call("inc", I(1)), 5)]), ("roll", [Assert(Bin("<", Call("roll"), I(6)))]), ok_main], (inc, roll, main))
     mkx("extern_skipped_then_pass", [("roll", [Assert(Bin("<", Call("roll"), I(6)))]), ("inc", [A(Call("inc", I(1)), 2)]), ok_main], (roll, inc, main))
     mkx("extern_skipped_wrong_assert", [("roll", [Assert(Bin("==", Call("roll"), I(99)))]), ("inc", [A(Call("inc", I(1)), 2)]), ok_main], (roll, inc, main))
+    # control flow inside the shadow block itself, before the assertion that decides: every way a loop can end (its last
+    # iteration continues / breaks / runs through, zero iterations), for every loop kind, then a false resp. true assertion
+    arr = ALit("int", [I(1), I(-2), I(3)])
+    loops = {
+        "forin_continue_last": [Let("seen", "int", I(0), True), ForIn("x", arr, [If(Bin(">", V("x"), I(2)), [Continue()], []), Set("seen", Bin("+", V("seen"), I(1)))])],
+        "forin_continue_middle": [Let("seen", "int", I(0), True), ForIn("x", arr, [If(Bin("<", V("x"), I(0)), [Continue()], []), Set("seen", Bin("+", V("seen"), I(1)))])],
+        "forin_break_last": [Let("seen", "int", I(0), True), ForIn("x", arr, [If(Bin(">", V("x"), I(2)), [Break()], []), Set("seen", Bin("+", V("seen"), I(1)))])],
+        "forrange_continue_last": [Let("seen", "int", I(0), True), For("i", I(0), I(3), [If(Bin("==", V("i"), I(2)), [Continue()], []), Set("seen", Bin("+", V("seen"), I(1)))])],
+        "forrange_zero_iterations": [Let("seen", "int", I(2), True), For("i", I(3), I(3), [Set("seen", I(0))])],
+        "while_continue_last": [Let("seen", "int", I(0), True), Let("k", "int", I(0), True), While(Bin("<", V("k"), I(3)), [Set("k", Bin("+", V("k"), I(1))), If(Bin("==", V("k"), I(3)), [Continue()], []), Set("seen", Bin("+", V("seen"), I(1)))])],
+        "while_break": [Let("seen", "int", I(0), True), Let("k", "int", I(0), True), While(B(True), [Set("k", Bin("+", V("k"), I(1))), If(Bin("==", V("k"), I(3)), [Break()], []), Set("seen", Bin("+", V("seen"), I(1)))])],
+        "nested_inner_continue_last": [Let("seen", "int", I(0), True), For("i", I(0), I(2), [ForIn("x", arr, [If(Bin(">", V("x"), I(2)), [Continue()], []), Set("seen", Bin("+", V("seen"), I(1)))])])],
+        "if_block_then": [Let("seen", "int", I(0), True), If(Bin("==", Call("inc", I(1)), I(2)), [Set("seen", I(2))], [Set("seen", I(9))])],
+    }
+    for lname, stmts in loops.items():
+        for truth in (True, False):
+            body = list(stmts) + [Assert(Bin("==", V("seen"), I(2))) if truth else Assert(Bin("==", V("seen"), I(77))), A(Call("inc", I(1)), 2)]
+            mk("ctl_%s_%s" % (lname, "hold" if truth else "fail"), [("inc", body), ("dbl", [A(Call("dbl", I(1)), 2)]), ok_main])
     mk("fail_then_pass_same_block", [("inc", [A(Call("inc", I(1)), 3), A(Call("inc", I(1)), 2)]), ("dbl", [A(Call("dbl", I(1)), 2)]), ok_main])
     return out
 
